@@ -35,7 +35,12 @@ use jj_lib::merged_tree_builder::MergedTreeBuilder;
 use jj_lib::object_id::ObjectId as _;
 use jj_lib::op_store::RefTarget;
 use jj_lib::operation::Operation;
+use jj_lib::op_store::RemoteRef;
+use jj_lib::op_store::RemoteRefState;
+use jj_lib::ref_name::GitRefName;
 use jj_lib::ref_name::RefName;
+use jj_lib::ref_name::RemoteName;
+use jj_lib::ref_name::RemoteRefSymbol;
 use jj_lib::ref_name::WorkspaceName;
 use jj_lib::ref_name::WorkspaceNameBuf;
 use jj_lib::repo::MutableRepo;
@@ -81,6 +86,9 @@ struct BaseSpec {
     bookmarks: Vec<(String, String)>,
     tags: Vec<(String, String)>,
     workspaces: Vec<(String, String)>,
+    /// tracked remote bookmarks `name@origin` (and the git ref refs/remotes/origin/name)
+    #[serde(default)]
+    remotes: Vec<(String, String)>,
 }
 
 fn cs(label: &str, parents: &[&str], empty: bool) -> CommitSpec {
@@ -99,6 +107,7 @@ fn base_family() -> Vec<BaseSpec> {
             bookmarks: pairs(&[("b1", "b"), ("b2", "c")]),
             tags: pairs(&[("t", "a")]),
             workspaces: pairs(&[("default", "c"), ("w2", "b")]),
+            remotes: vec![],
         },
         BaseSpec {
             name: "fork".into(),
@@ -106,6 +115,7 @@ fn base_family() -> Vec<BaseSpec> {
             bookmarks: pairs(&[("b1", "b"), ("b2", "c")]),
             tags: pairs(&[("t", "a")]),
             workspaces: pairs(&[("default", "c"), ("w2", "b")]),
+            remotes: vec![],
         },
         BaseSpec {
             name: "wcleaf".into(),
@@ -119,6 +129,7 @@ fn base_family() -> Vec<BaseSpec> {
             bookmarks: pairs(&[("b1", "b"), ("b2", "c")]),
             tags: pairs(&[("t", "a")]),
             workspaces: pairs(&[("default", "w"), ("w2", "b")]),
+            remotes: vec![],
         },
         BaseSpec {
             name: "merge".into(),
@@ -126,6 +137,7 @@ fn base_family() -> Vec<BaseSpec> {
             bookmarks: pairs(&[("b1", "b"), ("b2", "c")]),
             tags: pairs(&[("t", "a")]),
             workspaces: pairs(&[("default", "c"), ("w2", "b")]),
+            remotes: vec![],
         },
         BaseSpec {
             name: "deep".into(),
@@ -138,6 +150,15 @@ fn base_family() -> Vec<BaseSpec> {
             bookmarks: pairs(&[("b1", "b"), ("b2", "d")]),
             tags: pairs(&[("t", "a")]),
             workspaces: pairs(&[("default", "d"), ("w2", "b")]),
+            remotes: vec![],
+        },
+        BaseSpec {
+            name: "remote".into(),
+            commits: vec![cs("a", &[], false), cs("b", &["a"], false), cs("c", &["b"], false)],
+            bookmarks: pairs(&[("b1", "b"), ("b2", "c")]),
+            tags: pairs(&[("t", "a")]),
+            workspaces: pairs(&[("default", "c"), ("w2", "b")]),
+            remotes: pairs(&[("b1", "b")]),
         },
     ]
 }
@@ -164,6 +185,8 @@ enum Action {
     Forget { ws: String },
     /// rewrite `x` and move `bookmark` to the rewrite
     RewriteAndMove { x: String, bookmark: String },
+    /// what a fetch records: remote bookmark `name@origin` and its git ref now point to `to`
+    SetRemote { name: String, to: Option<String> },
 }
 
 fn label_of_action(a: &Action) -> String {
@@ -180,6 +203,8 @@ fn label_of_action(a: &Action) -> String {
         Action::New { .. } => "New",
         Action::Forget { .. } => "Forget",
         Action::RewriteAndMove { .. } => "RewriteAndMove",
+        Action::SetRemote { to: None, .. } => "DeleteRemote",
+        Action::SetRemote { .. } => "SetRemote",
     }
     .to_string()
 }
@@ -226,6 +251,11 @@ fn full_alphabet(base: &BaseSpec) -> Vec<Action> {
         v.push(Action::Abandon { x: tip.clone() });
         v.push(Action::NewCommit { on: tip.clone() });
         v.push(Action::SetBookmark { name: s("b1"), to: Some(tip) });
+    }
+    if !base.remotes.is_empty() {
+        v.push(Action::SetRemote { name: s("b1"), to: Some(s("c")) });
+        v.push(Action::SetRemote { name: s("b1"), to: Some(s("a")) });
+        v.push(Action::SetRemote { name: s("b1"), to: None });
     }
     v
 }
@@ -310,6 +340,8 @@ struct Snap {
     heads: BTreeSet<Id>,
     bookmarks: BTreeMap<String, Terms>,
     tags: BTreeMap<String, Terms>,
+    /// remote bookmarks ("name@remote") and git refs ("git:<ref>")
+    remotes: BTreeMap<String, Terms>,
     wcs: BTreeMap<String, Id>,
 }
 
@@ -391,6 +423,13 @@ fn snapshot(repo: &Arc<ReadonlyRepo>) -> Snap {
     }
     for (name, target) in repo.view().local_tags() {
         snap.tags.insert(name.as_str().to_string(), terms_of(target));
+    }
+    for (symbol, remote_ref) in repo.view().all_remote_bookmarks() {
+        snap.remotes
+            .insert(format!("{}@{}", symbol.name.as_str(), symbol.remote.as_str()), terms_of(&remote_ref.target));
+    }
+    for (name, target) in repo.view().git_refs() {
+        snap.remotes.insert(format!("git:{}", name.as_str()), terms_of(target));
     }
     for (name, id) in repo.view().wc_commit_ids() {
         snap.wcs.insert(name.as_str().to_string(), id.hex());
@@ -481,6 +520,9 @@ fn build_base(spec: &BaseSpec) -> World {
         let name: &RefName = name.as_str().as_ref();
         tx.repo_mut().set_local_tag_target(name, RefTarget::normal(by_label[at].id().clone()));
     }
+    for (name, at) in &spec.remotes {
+        set_remote(tx.repo_mut(), name, RefTarget::normal(by_label[at].id().clone()));
+    }
     for (name, at) in &spec.workspaces {
         tx.repo_mut()
             .set_wc_commit(ws_name(name), by_label[at].id().clone())
@@ -517,6 +559,15 @@ fn is_anc(table: &BTreeMap<Id, CInfo>, a: &Id, d: &Id) -> bool {
         }
     }
     false
+}
+
+fn set_remote(mut_repo: &mut MutableRepo, name: &str, target: RefTarget) {
+    let remote: &RemoteName = "origin".as_ref();
+    let symbol = RemoteRefSymbol { name: name.as_ref(), remote };
+    mut_repo.set_remote_bookmark(symbol, RemoteRef { target: target.clone(), state: RemoteRefState::Tracked });
+    let git_ref = format!("refs/remotes/origin/{name}");
+    let git_ref: &GitRefName = git_ref.as_str().as_ref();
+    mut_repo.set_git_ref_target(git_ref, target);
 }
 
 fn rn(n: &str) -> &RefName {
@@ -628,6 +679,17 @@ fn apply(mut_repo: &mut MutableRepo, snap: &Snap, side: usize, action: &Action) 
             let name: &WorkspaceName = name.as_ref();
             mut_repo.remove_workspace(name).block_on().map_err(|e| e.to_string())?;
         }
+        Action::SetRemote { name, to } => {
+            let target = match to {
+                Some(l) => RefTarget::normal(resolve(l)?.id().clone()),
+                None => RefTarget::absent(),
+            };
+            let key = format!("{name}@origin");
+            if !snap.remotes.contains_key(&key) || snap.remotes.get(&key) == Some(&terms_of(&target)) {
+                return Err("no remote bookmark / no change".into());
+            }
+            set_remote(mut_repo, name, target);
+        }
         Action::RewriteAndMove { x, bookmark } => {
             let c = resolve(x)?;
             let new = mut_repo
@@ -700,6 +762,8 @@ struct Stats {
     ref_agree_after_follow: Counter,
     ref_conflict: Counter,
     tag_conflict: Counter,
+    remote_conflict: Counter,
+    remote_changed: Counter,
     wc_untouched: Counter,
     wc_one_side: Counter,
     wc_followed_rewrite: Counter,
@@ -718,6 +782,14 @@ struct Stats {
     crisscross_skipped_differing_views: Counter,
     crisscross_multi_ancestor: Counter,
     triples: Counter,
+}
+
+fn ref_map<'s>(sn: &'s Snap, kind: &str) -> &'s BTreeMap<String, Terms> {
+    match kind {
+        "tag" => &sn.tags,
+        "remote" => &sn.remotes,
+        _ => &sn.bookmarks,
+    }
 }
 
 struct Judge<'a> {
@@ -769,27 +841,84 @@ impl<'a> Judge<'a> {
         self.problems.push((sig.to_string(), msg));
     }
 
-    /// Where a commit named by one side ends up after the other sides' rewrites and
-    /// abandonments: itself if still visible, else the visible commits with its change id,
-    /// else (abandoned) the replacements of its parents.
+    /// Some side hid this base commit (rewrote or abandoned it).
+    fn hidden_by_some_side(&self, id: &Id) -> bool {
+        self.base.vis.contains_key(id) && self.sides.iter().any(|sn| !sn.vis.contains_key(id))
+    }
+
+    /// Some side abandoned this base commit (hid it and has no other commit of its change).
+    fn abandoned_by_some_side(&self, id: &Id) -> bool {
+        let Some(info) = self.union.get(id) else { return false };
+        self.base.vis.contains_key(id)
+            && self
+                .sides
+                .iter()
+                .any(|sn| !sn.vis.contains_key(id) && !sn.vis.values().any(|c| c.change == info.change))
+    }
+
+    fn same_change_visible(&self, id: &Id) -> BTreeSet<Id> {
+        let Some(info) = self.union.get(id) else { return BTreeSet::new() };
+        self.merged
+            .vis
+            .iter()
+            .filter(|(i, c)| c.change == info.change && *i != id)
+            .map(|(i, _)| i.clone())
+            .collect()
+    }
+
+    /// Where a commit named by one side may end up after the other sides' rewrites and
+    /// abandonments: itself if still visible and untouched; otherwise the visible commits with
+    /// its change id and, if a side abandoned it (or nothing of its change is left), the
+    /// replacements of its parents. An allowed *set*: when one side rewrote and another
+    /// abandoned the same commit, either successor is accepted.
     fn repl(&self, id: &Id) -> BTreeSet<Id> {
-        if self.merged.vis.contains_key(id) {
+        let visible = self.merged.vis.contains_key(id);
+        if visible && !self.hidden_by_some_side(id) {
             return [id.clone()].into();
         }
         let Some(info) = self.union.get(id) else {
             return BTreeSet::new();
         };
-        let same_change: BTreeSet<Id> = self
-            .merged
-            .vis
-            .iter()
-            .filter(|(_, c)| c.change == info.change)
-            .map(|(i, _)| i.clone())
-            .collect();
-        if !same_change.is_empty() {
-            return same_change;
+        let mut out = self.same_change_visible(id);
+        if visible {
+            out.insert(id.clone());
         }
-        info.parents.iter().flat_map(|p| self.repl(p)).collect()
+        if out.is_empty() || self.abandoned_by_some_side(id) {
+            out.extend(info.parents.iter().flat_map(|p| self.repl(p)));
+        }
+        out
+    }
+
+    /// `id` (a base commit some side hid) is visible in the reconciled repo only below commits
+    /// that another side added on top of a commit which at least two sides rewrote: jj leaves
+    /// the descendants of a divergently rewritten commit alone (documented on
+    /// `set_divergent_rewrite`), which keeps the old commit and its ancestors visible.
+    fn explained_by_divergent_rewrite(&self, id: &Id) -> bool {
+        if self.merged.heads.contains(id)
+            || self.merged.wcs.values().any(|w| w == id)
+            || self.merged.bookmarks.values().any(|t| t.iter().step_by(2).flatten().any(|x| x == id))
+        {
+            return false;
+        }
+        let Some(info) = self.union.get(id) else { return false };
+        let rewriting_sides = self
+            .sides
+            .iter()
+            .filter(|sn| !sn.vis.contains_key(id) && sn.vis.values().any(|c| c.change == info.change))
+            .count();
+        let children: Vec<&Id> =
+            self.merged.vis.iter().filter(|(_, c)| c.parents.contains(id)).map(|(m, _)| m).collect();
+        !children.is_empty()
+            && children.iter().all(|c| {
+                if self.base.vis.contains_key(*c) {
+                    // an old commit that is itself kept visible for the same reason
+                    self.hidden_by_some_side(c) && self.explained_by_divergent_rewrite(c)
+                } else {
+                    // a commit added by a side that still had `id`, on a divergently rewritten `id`
+                    rewriting_sides >= 2
+                        && self.sides.iter().any(|sn| sn.vis.contains_key(*c) && sn.vis.contains_key(id))
+                }
+            })
     }
 
     fn judge_commits(&mut self) {
@@ -838,14 +967,12 @@ impl<'a> Judge<'a> {
                 }
                 self.stats.hidden_checked.inc();
                 if self.merged.vis.contains_key(id) {
-                    let kept_by_descendant = self.merged.vis.iter().any(|(m, info)| {
-                        info.parents.contains(id) && !self.base.vis.contains_key(m)
-                    });
-                    let change = self.union[id].change.clone();
-                    let other_versions =
-                        self.merged.vis.iter().filter(|(m, info)| info.change == change && *m != id).count();
-                    let shape = if kept_by_descendant && other_versions >= 2 {
-                        // jj leaves descendants of a divergently rewritten commit alone
+                    let kept_by_descendant = self
+                        .merged
+                        .vis
+                        .iter()
+                        .any(|(m, info)| info.parents.contains(id) && !self.base.vis.contains_key(m));
+                    let shape = if self.explained_by_divergent_rewrite(id) {
                         "below-child-after-divergent-rewrite"
                     } else if kept_by_descendant {
                         "visible-through-unrebased-child"
@@ -923,16 +1050,12 @@ impl<'a> Judge<'a> {
     }
 
     fn base_ref(&self, kind: &str, name: &str) -> Terms {
-        let map = if kind == "tag" { &self.base.tags } else { &self.base.bookmarks };
-        map.get(name).cloned().unwrap_or_else(|| vec![None])
+        ref_map(self.base, kind).get(name).cloned().unwrap_or_else(|| vec![None])
     }
 
     fn judge_ref(&mut self, kind: &'static str, name: &str) {
         let follow = kind == "bookmark";
-        let get = |sn: &Snap| -> Terms {
-            let map = if kind == "tag" { &sn.tags } else { &sn.bookmarks };
-            map.get(name).cloned().unwrap_or_else(|| vec![None])
-        };
+        let get = |sn: &Snap| -> Terms { ref_map(sn, kind).get(name).cloned().unwrap_or_else(|| vec![None]) };
         let b = get(self.base);
         let m = get(self.merged);
         let vals: Vec<Terms> = self.sides.iter().map(|sn| get(sn)).collect();
@@ -967,61 +1090,81 @@ impl<'a> Judge<'a> {
                 let all_adds: Vec<Id> =
                     distinct.iter().flat_map(|v| v.iter().step_by(2).flatten().cloned()).collect();
                 if m.len() == 1 {
-                    // resolved: only a fast-forward along one line of history is acceptable
-                    let normals: Option<Vec<Id>> =
-                        distinct.iter().map(|v| if v.len() == 1 { v[0].clone() } else { None }).collect();
+                    // resolved: acceptable only if, with every side's value followed through the other
+                    // sides' rewrites and abandonments, the sides that still differ from the base agree
+                    // or lie on one line of history above the base (fast-forward)
                     let mut ok = false;
-                    // every side's value, followed through the other sides' rewrites, is the same commit
-                    if let (Some(ns), [Some(x)]) = (&normals, m.as_slice()) {
-                        if ns.iter().all(|n| self.follow_set(follow, n).contains(x)) {
-                            ok = true;
-                            self.stats.ref_agree_after_follow.inc();
-                        }
-                    }
-                    if !ok {
-                        if let Some(ns) = normals {
-                            // fast-forward along one line of history, judged on the values as named by
-                            // the sides, or on the values followed through the other sides' rewrites
-                            let followed: Option<Vec<Id>> = ns
-                                .iter()
-                                .map(|n| {
-                                    let f = self.follow_set(follow, n);
-                                    if f.len() == 1 { f.into_iter().next() } else { None }
-                                })
-                                .collect();
-                            let mut base_ids: Vec<Option<Id>> = vec![];
-                            match b.as_slice() {
-                                [None] => base_ids.push(None),
-                                [Some(bc)] => {
-                                    base_ids.push(Some(bc.clone()));
-                                    if follow {
-                                        base_ids.extend(self.repl(bc).into_iter().map(Some));
-                                    }
-                                }
-                                _ => {}
+                    let options: Option<Vec<Vec<Option<Id>>>> = distinct
+                        .iter()
+                        .map(|v| match v.as_slice() {
+                            [None] => Some(vec![None]),
+                            [Some(id)] => {
+                                let mut o: Vec<Option<Id>> =
+                                    self.follow_set(follow, id).into_iter().map(Some).collect();
+                                o.push(Some(id.clone()));
+                                o.dedup();
+                                Some(o)
                             }
-                            for (cands, already_followed) in [(Some(ns.clone()), false), (followed, true)] {
-                                let Some(cs) = cands else { continue };
-                                let chain = cs.iter().all(|x| {
-                                    cs.iter().all(|y| is_anc(&self.union, x, y) || is_anc(&self.union, y, x))
-                                });
-                                let base_below = base_ids.iter().any(|bi| match bi {
-                                    None => true,
-                                    Some(bc) => cs.iter().all(|x| is_anc(&self.union, bc, x)),
-                                });
-                                if chain && base_below {
-                                    let top = cs.iter().find(|x| cs.iter().all(|y| is_anc(&self.union, y, x))).unwrap();
-                                    let allowed: BTreeSet<Id> =
-                                        if already_followed { [top.clone()].into() } else { self.follow_set(follow, top) };
-                                    if matches!(&m[0], Some(x) if allowed.contains(x)) {
-                                        ok = true;
-                                    }
+                            _ => None,
+                        })
+                        .collect();
+                    let base_set: Vec<Option<Id>> = match b.as_slice() {
+                        [None] => vec![None],
+                        [Some(bc)] => {
+                            let mut o: Vec<Option<Id>> = vec![Some(bc.clone())];
+                            o.extend(self.follow_set(follow, bc).into_iter().map(Some));
+                            o
+                        }
+                        _ => vec![],
+                    };
+                    if let (Some(options), false) = (options, base_set.is_empty()) {
+                        let dims: Vec<usize> = options.iter().map(|o| o.len()).collect();
+                        vcommon::enumerate::odometer(&dims, |choice| {
+                            let mut remaining: Vec<Option<Id>> = vec![];
+                            for (k, &c) in choice.iter().enumerate() {
+                                let g = &options[k][c];
+                                if !base_set.contains(g) && !remaining.contains(g) {
+                                    remaining.push(g.clone());
                                 }
                             }
-                            if ok {
-                                self.stats.ref_fast_forward.inc();
+                            let accept = match remaining.as_slice() {
+                                [] => base_set.contains(&m[0]),
+                                [one] => {
+                                    // a raw id stands for any of its successors
+                                    *one == m[0]
+                                        || matches!((one, &m[0]), (Some(o), Some(x)) if self.follow_set(follow, o).contains(x))
+                                }
+                                many => {
+                                    let ids: Option<Vec<Id>> = many.iter().cloned().collect();
+                                    match ids {
+                                        None => false,
+                                        Some(ids) => {
+                                            let chain = ids.iter().all(|x| {
+                                                ids.iter().all(|y| is_anc(&self.union, x, y) || is_anc(&self.union, y, x))
+                                            });
+                                            let base_below = base_set.iter().any(|bi| match bi {
+                                                None => true,
+                                                Some(bc) => ids.iter().all(|x| is_anc(&self.union, bc, x)),
+                                            });
+                                            chain && base_below && {
+                                                let top =
+                                                    ids.iter().find(|x| ids.iter().all(|y| is_anc(&self.union, y, x))).unwrap();
+                                                matches!(&m[0], Some(x) if x == top || self.follow_set(follow, top).contains(x))
+                                            }
+                                        }
+                                    }
+                                }
+                            };
+                            if accept {
+                                ok = true;
+                                if remaining.len() > 1 {
+                                    self.stats.ref_fast_forward.inc();
+                                } else {
+                                    self.stats.ref_agree_after_follow.inc();
+                                }
                             }
-                        }
+                            !accept
+                        });
                     }
                     if ok {
                     } else {
@@ -1043,7 +1186,9 @@ impl<'a> Judge<'a> {
                     }
                 } else {
                     self.flags.insert("ref-conflict");
-                    if kind == "tag" {
+                    if kind == "remote" {
+                        self.stats.remote_conflict.inc();
+                    } else if kind == "tag" {
                         self.stats.tag_conflict.inc();
                     } else {
                         self.stats.ref_conflict.inc();
@@ -1122,29 +1267,34 @@ impl<'a> Judge<'a> {
             self.fail(sig, msg);
             return;
         };
-        let ok = if self.merged.vis.contains_key(&v) {
+        let visible = self.merged.vis.contains_key(&v);
+        let ok = if visible && !self.hidden_by_some_side(&v) {
             mid == v
         } else {
             let info = self.union[&v].clone();
-            let same_change: BTreeSet<Id> = self
-                .merged
-                .vis
-                .iter()
-                .filter(|(_, c)| c.change == info.change)
-                .map(|(i, _)| i.clone())
-                .collect();
-            if !same_change.is_empty() {
+            let same_change = self.same_change_visible(&v);
+            let may_be_recreated = (same_change.is_empty() && !visible) || self.abandoned_by_some_side(&v);
+            if (visible && mid == v) || same_change.contains(&mid) {
                 self.stats.wc_followed_rewrite.inc();
-                same_change.contains(&mid)
-            } else {
+                true
+            } else if may_be_recreated {
                 // abandoned by another side: a new commit on top of the (followed) parents
-                self.stats.wc_recreated.inc();
                 let allowed_parents: BTreeSet<Id> = info.parents.iter().flat_map(|p| self.repl(p)).collect();
                 let fresh = !self.base.vis.contains_key(&mid) && self.sides.iter().all(|sn| !sn.vis.contains_key(&mid));
                 match self.merged.vis.get(&mid) {
-                    Some(mi) => fresh && !mi.parents.is_empty() && mi.parents.iter().all(|p| allowed_parents.contains(p)),
-                    None => false,
+                    Some(mi)
+                        if fresh
+                            && mi.change.starts_with('~')
+                            && !mi.parents.is_empty()
+                            && mi.parents.iter().all(|p| allowed_parents.contains(p)) =>
+                    {
+                        self.stats.wc_recreated.inc();
+                        true
+                    }
+                    _ => false,
                 }
+            } else {
+                false
             }
         };
         if !ok {
@@ -1163,10 +1313,12 @@ impl<'a> Judge<'a> {
         self.judge_commits();
         let mut names: BTreeSet<String> = BTreeSet::new();
         let mut tag_names: BTreeSet<String> = BTreeSet::new();
+        let mut remote_names: BTreeSet<String> = BTreeSet::new();
         let mut ws_names: BTreeSet<String> = BTreeSet::new();
         for sn in std::iter::once(self.base).chain(self.sides.iter().copied()).chain(std::iter::once(self.merged)) {
             names.extend(sn.bookmarks.keys().cloned());
             tag_names.extend(sn.tags.keys().cloned());
+            remote_names.extend(sn.remotes.keys().cloned());
             ws_names.extend(sn.wcs.keys().cloned());
         }
         for n in names {
@@ -1174,6 +1326,12 @@ impl<'a> Judge<'a> {
         }
         for n in tag_names {
             self.judge_ref("tag", &n);
+        }
+        for n in remote_names {
+            if self.sides.iter().any(|sn| sn.remotes.get(&n) != self.base.remotes.get(&n)) {
+                self.stats.remote_changed.inc();
+            }
+            self.judge_ref("remote", &n);
         }
         for n in ws_names {
             self.judge_wc(&n);
@@ -1222,8 +1380,9 @@ fn canonical(snap: &Snap, union: &BTreeMap<Id, CInfo>) -> String {
     };
     let bookmarks = render(&snap.bookmarks);
     let tags = render(&snap.tags);
+    let remotes = render(&snap.remotes);
     let wcs: Vec<(String, String)> = snap.wcs.iter().map(|(n, i)| (n.clone(), key(i, union, &mut memo))).collect();
-    format!("{commits:?}|{bookmarks:?}|{tags:?}|{wcs:?}")
+    format!("{commits:?}|{bookmarks:?}|{tags:?}|{remotes:?}|{wcs:?}")
 }
 
 
@@ -1235,6 +1394,9 @@ struct Outcome {
     canonical_states: Vec<String>,
     applicable: bool,
     order_dependent_unexplained: bool,
+    /// some reconciliation rebased commits, recorded a conflict, kept a divergent change or had
+    /// to pick a working copy: the sides really interacted
+    interacting: bool,
 }
 
 fn reconcile(
@@ -1256,7 +1418,7 @@ fn reconcile(
 
 fn run_case(case: &Case, stats: &Stats) -> Outcome {
     let case_value = serde_json::to_value(case).unwrap();
-    let mut out = Outcome { violations: vec![], canonical_states: vec![], applicable: true, order_dependent_unexplained: false };
+    let mut out = Outcome { violations: vec![], canonical_states: vec![], applicable: true, order_dependent_unexplained: false, interacting: false };
     stats.cases.inc();
     let world = build_base(&case.base);
     let base_snap = snapshot(&world.base_repo);
@@ -1304,6 +1466,9 @@ fn run_case(case: &Case, stats: &Stats) -> Outcome {
         }
     };
     let note_order_dependence = |canon: &[(String, BTreeSet<&'static str>)], out: &mut Outcome| {
+        if canon.iter().any(|(_, f)| !f.is_empty()) {
+            out.interacting = true;
+        }
         if let Some((first, _)) = canon.first() {
             if canon.iter().any(|(c, _)| c != first) {
                 stats.order_dependent.inc();
@@ -1331,7 +1496,10 @@ fn run_case(case: &Case, stats: &Stats) -> Outcome {
             }
             let ops: Vec<Operation> = perm.iter().map(|&i| side_ops[i].clone()).collect();
             match reconcile(&world, 200 + pi as u64, ops, stats) {
-                Ok((merged, _)) => {
+                Ok((merged, n_rebased)) => {
+                    if n_rebased > 0 {
+                        out.interacting = true;
+                    }
                     let parents: Vec<_> = merged.operation().parent_ids().to_vec();
                     let want: Vec<_> = perm.iter().map(|&i| side_ops[i].id().clone()).collect();
                     if parents != want {
@@ -1438,7 +1606,12 @@ fn run_case(case: &Case, stats: &Stats) -> Outcome {
         }
         let ops: Vec<Operation> = perm.iter().map(|&i| ext_ops[i].clone()).collect();
         match reconcile(&world, 210 + pi as u64, ops, stats) {
-            Ok((merged, _)) => canon.push(judge_one(perm, &merged, "criss-cross merge_operations", &x_snap, &ext_snaps, &mut out.violations)),
+            Ok((merged, n_rebased)) => {
+                if n_rebased > 0 {
+                    out.interacting = true;
+                }
+                canon.push(judge_one(perm, &merged, "criss-cross merge_operations", &x_snap, &ext_snaps, &mut out.violations));
+            }
             Err((sig, msg)) => out.violations.push((sig, msg, case_value.clone())),
         }
     }
@@ -1446,6 +1619,10 @@ fn run_case(case: &Case, stats: &Stats) -> Outcome {
     out.canonical_states = canon.into_iter().map(|(c, _)| c).collect();
     out
 }
+
+/// Signature of the one deviation observed on the unchanged tree (reported to the coordinator);
+/// the vacuity gates stay armed when only this shape occurs.
+const KNOWN_DIVERGENT_SHAPE: &str = "C13/commits/hidden-commit-below-child-after-divergent-rewrite";
 
 // ---------------------------------------------------------------------------------------
 
@@ -1544,10 +1721,13 @@ fn main() {
         }
     }
 
-    let samples = Samples::new(6);
+    let samples = Samples::new(3);
+    let samples_triples = Samples::new(3);
+    let applicable_cases = Counter::new();
     let states: std::sync::Mutex<BTreeSet<u64>> = std::sync::Mutex::new(BTreeSet::new());
     let per_action: std::sync::Mutex<BTreeMap<String, (u64, u64)>> = std::sync::Mutex::new(BTreeMap::new());
     let nontrivial = Counter::new();
+    let unexpected = Counter::new();
     let order_examples: std::sync::Mutex<Vec<String>> = std::sync::Mutex::new(vec![]);
     cases.par_iter().for_each(|case| {
         let out = run_case(case, &stats);
@@ -1570,13 +1750,19 @@ fn main() {
             for c in &out.canonical_states {
                 st.insert(vcommon::fnv(c.as_bytes()));
             }
-            // non-trivial: the sides touch a common item or one side's rewrite moves the other's work
-            nontrivial.inc();
-            if case.sides.len() == 3 || case.ext.is_some() {
-                samples.offer(|| serde_json::to_value(case).unwrap());
+            applicable_cases.inc();
+            if out.interacting {
+                nontrivial.inc();
+                if (case.sides.len() == 3 && samples_triples.wants_more()) || case.ext.is_some() {
+                    let which = if case.ext.is_some() { &samples } else { &samples_triples };
+                    which.offer(|| json!({"base": case.base.name, "sides": case.sides, "ext": case.ext}));
+                }
             }
         }
         for (sig, msg, c) in out.violations {
+            if sig != KNOWN_DIVERGENT_SHAPE {
+                unexpected.inc();
+            }
             ctx.violation(&sig, msg, c);
         }
     });
@@ -1589,6 +1775,7 @@ fn main() {
         ("bookmark fast-forwards", stats.ref_fast_forward.get()),
         ("identical changes by several sides", stats.ref_identical.get()),
         ("tag conflicts", stats.tag_conflict.get()),
+        ("remote bookmark / git ref conflicts", stats.remote_conflict.get()),
         ("working copy followed a rewrite", stats.wc_followed_rewrite.get()),
         ("working copy recreated after abandonment", stats.wc_recreated.get()),
         ("working-copy conflicts", stats.wc_conflict_first_wins.get()),
@@ -1596,7 +1783,7 @@ fn main() {
         ("criss-cross with several common ancestors", stats.crisscross_multi_ancestor.get()),
         ("hidden commit with a child created by another side", stats.hidden_by_one_kept_descendant_of_other.get()),
     ];
-    if ctx.violation_count() == 0 {
+    if unexpected.get() == 0 {
         for (name, n) in &gates {
             if *n == 0 {
                 machinery_failure(&format!("vacuous: no case exercised '{name}'"));
@@ -1626,6 +1813,7 @@ fn main() {
     extra.insert("cases_triples".into(), json!(n_triples));
     extra.insert("cases_crisscross".into(), json!(n_cross));
     extra.insert("cases_not_applicable".into(), json!(stats.cases_not_applicable.get()));
+    extra.insert("cases_applicable".into(), json!(applicable_cases.get()));
     extra.insert("crisscross_skipped_differing_views".into(), json!(stats.crisscross_skipped_differing_views.get()));
     extra.insert("crisscross_with_several_common_ancestors".into(), json!(stats.crisscross_multi_ancestor.get()));
     extra.insert("reconciliations".into(), json!(stats.merges.get()));
@@ -1646,6 +1834,8 @@ fn main() {
             "ref_sides_agree_after_following_rewrites": stats.ref_agree_after_follow.get(),
             "bookmark_conflict": stats.ref_conflict.get(),
             "tag_conflict": stats.tag_conflict.get(),
+            "remote_bookmark_or_git_ref_changed": stats.remote_changed.get(),
+            "remote_bookmark_or_git_ref_conflict": stats.remote_conflict.get(),
             "wc_untouched": stats.wc_untouched.get(),
             "wc_changed_by_one_side": stats.wc_one_side.get(),
             "wc_followed_rewrite": stats.wc_followed_rewrite.get(),
@@ -1684,12 +1874,14 @@ fn main() {
         distinct_nontrivial: nontrivial.get(),
         rule: "every ordered pair of actions of the full alphabet on each pair base, every ordered triple of the \
                triple alphabet on each triple base, every (pair, pair of extensions) criss-cross shape of the \
-               criss-cross alphabet; each reconciled in every order of the operation heads through \
-               merge_operations plus once through load_at_head; non-trivial = all actions applicable, so that \
-               divergent operation heads really exist and were reconciled; states = distinct id-free reconciled \
-               repositories, transitions = reconciliations executed by the real code"
+               criss-cross alphabets; each reconciled in every order of the operation heads through \
+               merge_operations plus once through load_at_head. A case counts when all its actions are applicable \
+               (divergent operation heads really exist); non-trivial = in addition some reconciliation rebased \
+               commits, recorded a ref conflict, kept a divergent change or had to choose between two working-copy \
+               values (the sides interacted); states = distinct id-free reconciled repositories, transitions = \
+               reconciliations executed by the real code"
             .into(),
-        samples: samples.take(),
+        samples: samples_triples.take().into_iter().chain(samples.take()).collect(),
         exhaustive: true,
         states: Some(n_states),
         transitions: Some(merges),
